@@ -49,10 +49,13 @@ MkDecl(P, i) ==
   ELSE IF c = 9 THEN
        \* a copy (or symbolic link) of a built file / a copy of a source file
        (IF filesT # {} /\ Below(R(6), 2) = 0
-          THEN [Blank EXCEPT !.kind = "copy", !.name = nm, !.ins = <<T(Pick(filesT, R(7)))>>,
-                             !.mode = (IF Below(R(8), 2) = 0 THEN "symlink" ELSE "copy")]
+          THEN LET src == Pick(filesT, R(7)) IN
+               [Blank EXCEPT !.kind = "copy", !.name = nm, !.ins = <<T(src)>>,
+                             !.mode = (IF Below(R(8), 2) = 0 THEN "symlink" ELSE "copy"),
+                             !.xdeps = IF Below(R(12), 3) = 0 THEN PickN(filesT \ {src}, 1, 45) ELSE <<>>]
         ELSE IF {"d1", "s3"} \ copied = {} THEN exe
         ELSE [Blank EXCEPT !.kind = "copy", !.name = nm, !.ins = <<F(Pick({"d1", "s3"} \ copied, R(7)))>>,
+                           !.xdeps = xd,
                            !.dist = (Below(R(8), 4) # 0)])
   ELSE IF c = 10 THEN (IF Targets(P) = {} THEN exe
                        ELSE [Blank EXCEPT !.kind = "alias", !.name = nm, !.deps = PickN(Targets(P), 1 + Below(R(3), 2), 40)])
